@@ -165,6 +165,24 @@ class Loops:
         for nd in nodes:
             if nd:
                 walk(nd)
+        # ghost variables updated by hooks on operations occurring in the loop
+        c = ex.cur_contract
+        if c is not None and c.ghost_on and ex.cur_fnode is ex.fnode:
+            text = []
+
+            def names_in(n):
+                if isinstance(n, dict):
+                    if n.get('kind') == 'MemberExpr':
+                        text.append(n.get('name'))
+                    for ch in n.get('inner', ()):
+                        names_in(ch)
+            for nd in nodes:
+                if nd:
+                    names_in(nd)
+            for meth, var, updates in c.ghost_on:
+                if meth in text:
+                    for g in updates:
+                        mods.append((Path('ghost_' + g), False))
         # dedupe
         out = []
         for p, el in mods:
@@ -333,6 +351,14 @@ class Loops:
             ex.assume(e)
         for lab, e in invariants('assume'):
             ex.assume(e)
+        if lspec.get('assume'):
+            env = S.Env(ex, ex.store, dict(ex.names), ex.this_path, {})
+            extra = {'pre': OldNS(env_pre), 'old': OldNS(ex.entry_env) if ex.entry_env else None}
+            extra.update(ex.cur_contract.extra_env if ex.cur_contract else {})
+            extra.update(ex.spec_lets)
+            for e in lspec['assume']:
+                ex.assume(S.spec_eval(e, env, extra))
+                ex.assumed.add('assumed loop fact in %s %s: %s' % (ex.fname, tag, e))
         # 3. condition
         cv = ex.tobool(ex.ev(cond), None) if cond is not None else z3.BoolVal(True)
         if ex.decide(cv):
